@@ -231,11 +231,29 @@ pub fn run(ctx: &Ctx) -> i32 {
     }
     crate::isolate::CASE_ALARM_S.store(0, Ordering::Relaxed);
 
+    // T5: repeated huge expansions through the real binary with the address space limited to
+    // 2 GiB: the answer must still be an image or a diagnostic, never an allocation abort.
+    let lace = crate::cli::Lace::new(&ctx.lace_bin, &ctx.scratch);
+    let wrapper = ["sh", "-c", "ulimit -v 2097152; exec \"$0\" \"$@\""];
+    for (k, line) in [(1usize, ".blkw xFFFF\n"), (2, ".blkw xFFFF\n"), (300, ".blkw xFFFF\n"), (3000, ".blkw xFFFF\n"), (3000, ".blkw #-1\n"), (3000, "a .blkw xFFFF\n"), (20000, ".stringz \"abcdefgh\"\n")] {
+        all.eval("T5/repeated-expansions-limited-memory");
+        let text = line.repeat(k);
+        lace.write("big.asm", text.as_bytes());
+        let r = lace.run_timeout(&["check", "big.asm"], b"", &[], Some(&wrapper), 120);
+        let case = json!({"limited_memory": true, "line": line, "repeat": k, "source_shown": format!("{:?} x {k}", line)});
+        if r.class() == "crash" || r.class() == "timeout" {
+            all.violation(format!("C05/total/limited-memory/{}", if r.err().contains("memory allocation") { "allocation-abort" } else { r.class() }), format!("`lace check` on {:?} repeated {k} times ({} bytes of source) under a 2 GiB address-space limit ended with status {} ({})", line, text.len(), r.status, r.err().lines().last().unwrap_or("")), case);
+        } else {
+            all.nontrivial();
+            all.outcome(format!("T5/{}", r.class()));
+        }
+    }
+
     finish(
         ctx,
         all,
         Level { category: "model_checking", bfs: None },
-        "bounded-exhaustive enumeration of texts: T1 every token sequence up to the tier's length over a 32-token alphabet (one token of every lexical kind incl. each directive, malformed literals, multi-byte characters) joined by space and by newline, under both feature flags; T2 every string up to the tier's length over 36 characters the lexer distinguishes; T3 every single-token deletion/duplication/swap/replacement (by each alphabet token) of 10 seed programs and a 2-byte / 4-byte character inserted at every character boundary; T4 size extremes. Oracle: assembling returns (60 s watchdog) without panic, and a diagnostic renders and every labelled span lies inside the source (offset+len <= length). distinct_nontrivial = distinct texts that ended in a diagnostic",
+        "bounded-exhaustive enumeration of texts: T1 every token sequence up to the tier's length over a 32-token alphabet (one token of every lexical kind incl. each directive, malformed literals, multi-byte characters) joined by space and by newline, under both feature flags; T2 every string up to the tier's length over 36 characters the lexer distinguishes; T3 every single-token deletion/duplication/swap/replacement (by each alphabet token) of 10 seed programs and a 2-byte / 4-byte character inserted at every character boundary; T4 size extremes; T5 `.blkw xFFFF` / `.blkw #-1` / `.stringz` lines repeated up to 3000 / 20000 times through `lace check` under a 2 GiB address-space limit (no allocation abort). Oracle: assembling returns (60 s watchdog) without panic, and a diagnostic renders and every labelled span lies inside the source (offset+len <= length). distinct_nontrivial = distinct texts that ended in a diagnostic",
         true,
         &["some-image", "some-diagnostic"],
         &["profile: optimised with debug assertions and overflow checks, so arithmetic overflow panics as in `cargo test`"],
@@ -243,7 +261,15 @@ pub fn run(ctx: &Ctx) -> i32 {
     )
 }
 
-pub fn replay(_ctx: &Ctx, case: &Value) -> Option<Option<String>> {
+pub fn replay(ctx: &Ctx, case: &Value) -> Option<Option<String>> {
+    if case["limited_memory"].as_bool() == Some(true) {
+        let lace = crate::cli::Lace::new(&ctx.lace_bin, &ctx.scratch);
+        let text = case["line"].as_str()?.repeat(case["repeat"].as_u64()? as usize);
+        lace.write("big.asm", text.as_bytes());
+        let wrapper = ["sh", "-c", "ulimit -v 2097152; exec \"$0\" \"$@\""];
+        let r = lace.run_timeout(&["check", "big.asm"], b"", &[], Some(&wrapper), 120);
+        return Some(if r.class() == "crash" || r.class() == "timeout" { Some(format!("status {} ({})", r.status, r.err().lines().last().unwrap_or(""))) } else { None });
+    }
     let stack = case["stack_feature"].as_bool().unwrap_or(false);
     let src = case["source"].as_str()?;
     let a = confirm_fresh(|| judge(src, stack));
